@@ -481,13 +481,16 @@ func aliasCases(g *Gen, tc TreeCfg) {
 func init() { register("C11", genC11) }
 
 type c11Captured struct {
-	Ref  *ucfg.Config            `config:"o2"`        // the setting is a reference to a namespace of the config
-	RefA *ucfg.Config            `config:"o3,append"` // the same, with a handling of its own
-	Sub  *ucfg.Config            `config:"s"`
-	Subs map[string]*ucfg.Config `config:"m"`
-	A    string                  `config:"a"`
-	L    []interface{}           `config:"l"`
-	N    map[string]interface{}  `config:"n"`
+	// (under the tag name "alt" the captured fields are bound to other settings than the ones
+	// they captured)
+	Ref  *ucfg.Config            `config:"o2" alt:"s"`        // the setting is a reference to a namespace of the config
+	RefA *ucfg.Config            `config:"o3,append" alt:"o2"` // the same, with a handling of its own
+	Sub  *ucfg.Config            `config:"s" alt:"n"`
+	Subs map[string]*ucfg.Config `config:"m" alt:"m"`
+	A    string                  `config:"a" alt:"a"`
+	L    []interface{}           `config:"l" alt:"l"`
+	N    map[string]interface{}  `config:"n" alt:"n"`
+	Z    *int                    `config:"z" alt:"m.j"` // a null setting (its metadata may differ from its namespace's)
 }
 
 type c11Read struct {
@@ -557,6 +560,10 @@ func c11Reads() []c11Read {
 		c11Read{"Unpack captured append (same target)", func(c *ucfg.Config, o []ucfg.Option, st *c11State) string {
 			err := c.Unpack(st.captured, append(append([]ucfg.Option{}, o...), ucfg.AppendValues)...)
 			return "append:" + resErr(err)
+		}},
+		c11Read{"Unpack captured under another tag name (same target)", func(c *ucfg.Config, o []ucfg.Option, st *c11State) string {
+			err := c.Unpack(st.captured, append(append([]ucfg.Option{}, o...), ucfg.StructTag("alt"))...)
+			return "alt:" + resErr(err)
 		}},
 		c11Read{"merge source", func(c *ucfg.Config, o []ucfg.Option, _ *c11State) string {
 			d := ucfg.New()
@@ -639,7 +646,12 @@ func genC11(g *Gen) {
 		}
 		opts := []ucfg.Option{ucfg.PathSep("."), ucfg.VarExp, ucfg.Resolve(resolver)}
 		g.Mark(map[string]interface{}{"data": encTree(data)})
-		c, err := ucfg.NewFrom(data, opts...)
+		bopts := opts
+		if r.Bool() {
+			// loaded with source metadata (the root itself carries none)
+			bopts = append(append([]ucfg.Option{}, opts...), ucfg.MetaData(ucfg.Meta{Source: "base.yml"}))
+		}
+		c, err := ucfg.NewFrom(data, bopts...)
 		if err != nil {
 			g.Skip("not built")
 			continue
@@ -656,8 +668,8 @@ func genC11(g *Gen) {
 		var seq [][2]string
 		for j := 0; j < k; j++ {
 			rd := reads[r.Intn(len(reads))]
-			if r.P(2, 5) { // the whole-config reads (Unpack, merge source, ...) are the last 15
-				rd = reads[len(reads)-15+r.Intn(15)]
+			if r.P(2, 5) { // the whole-config reads (Unpack, merge source, ...) are the last 16
+				rd = reads[len(reads)-16+r.Intn(16)]
 			}
 			before := snapshotNoReads(c, ren)
 			var r1, r2 string
